@@ -1756,10 +1756,10 @@ theorem handleConnack_extra (e : Engine) (c : Connack) (hinv : Inv e) (h : Extra
             by_cases hd : e.cfg.drainOneAtATime = true
             · have : (!e1.cfg.drainOneAtATime) = false := by simp [e1, hd]
               rw [if_neg (by simp [this])]
-              exact ⟨⟨hok0.sorted, hok0.ids, hok0.userKind, hok0.wc, fun _ _ => rfl⟩, List.Perm.refl _⟩
+              exact ⟨⟨hok0.sorted, hok0.ids, hok0.userKind, hok0.wc, fun _ _ => rfl, hok0.to⟩, List.Perm.refl _⟩
             · have : (!e1.cfg.drainOneAtATime) = true := by simp [e1, hd]
               rw [if_pos this]
-              exact ⟨⟨hok0.sorted, hok0.ids, hok0.userKind, hok0.wc, fun hh _ => absurd hh hd⟩, List.Perm.refl _⟩
+              exact ⟨⟨hok0.sorted, hok0.ids, hok0.userKind, hok0.wc, fun hh _ => absurd hh hd, hok0.to⟩, List.Perm.refl _⟩
           exact (this hok).1
         have hst2 : e2.state = .connected := iv.2.1
         have fin : Extra false [] (e2.applySessionPresent c.sessionPresent).1.view := by
